@@ -122,6 +122,7 @@ fn align2(shape: &Shape2, scale: f64, pose: &Iso2D, fracs: &[f64], angle_deg: f6
     let centroid = Point2::from(pts[..pts.len() - 1].iter().fold(Vector2::zeros(), |s, p| s + p.coords) / (pts.len() - 1) as f64);
     // "already aligned": the samples are the reference's own vertices, so every residual is exactly zero at the start
     let samples: Vec<Point2> = if at_solution { cx.label("at_solution"); pts[..pts.len() - 1].to_vec() } else { fracs.iter().map(|f| model.point_at(f * model.len())).collect() };
+    let mut conditioning = f64::INFINITY;
     if !honesty && !at_solution {
         // "all sample sets" means sets that fix all three degrees of freedom: the normal matrix of the point-to-line
         // problem at the true pose (rows [n, (p - centroid) x n / size]) must be well conditioned.  Uniformly drawn
@@ -157,6 +158,7 @@ fn align2(shape: &Shape2, scale: f64, pose: &Iso2D, fracs: &[f64], angle_deg: f6
         if ev.min() < 1e-2 * samples.len() as f64 {
             return Verdict::Discard("sample set does not fix all degrees of freedom");
         }
+        conditioning = ev.min() / samples.len() as f64;
     }
     // displacement about the centroid
     let about = |a_deg: f64, tv: &P2| -> Iso2 { Iso2::new(Vector2::new(tv[0] * size, tv[1] * size), 0.0) * Iso2::new(centroid.coords, 0.0) * Iso2::new(Vector2::zeros(), a_deg.to_radians()) * Iso2::new(-centroid.coords, 0.0) };
@@ -190,6 +192,11 @@ fn align2(shape: &Shape2, scale: f64, pose: &Iso2D, fracs: &[f64], angle_deg: f6
     // The basin of the recovery clause is stated in terms of what makes point-to-curve alignment locally convex: at the
     // start at most one sample in ten is matched to a wrong edge.  (Local minima with a fifth of the samples on wrong
     // edges are genuine properties of the objective, not defects of the solver.)
+    // the two measures of how far inside the basin a case lies may not both be marginal: with a conditioning below 0.02
+    // (uniform sets: below the 8 % quantile) at most a twentieth of the samples may start on a wrong edge or a corner
+    if !honesty && !at_solution && conditioning < 0.02 && 20 * misassigned > samples.len() {
+        return Verdict::Discard("marginal conditioning together with more than a twentieth of the samples on a wrong edge");
+    }
     if !honesty && !at_solution && 10 * misassigned > samples.len() {
         return Verdict::Discard("more than a tenth of the samples start on a wrong edge");
     }
